@@ -636,6 +636,9 @@ impl CompactionWorker {
 
                 while file_iterator.is_valid() && !db_state.is_shutting_down.load(Ordering::Acquire)
                 {
+                    #[cfg(feature = "verif")]
+                    crate::verif::sched::point(db_state.options.db_path(), "bg:compact-loop");
+
                     if db_state.has_immutable_memtable.load(Ordering::Acquire) {
                         // Prioritize compacting an immutable memtable if there is one
                         let memtable_compaction_start = Instant::now();
